@@ -232,29 +232,22 @@ def _one_length(e, case, total, log, sb, poison):
             return SimTable(t, mode='copy', name='s%d' % i)
         return fac(i, t)
 
-    # cost of the header row of the pipeline below each stage that consults
-    # its input's header at construction
+    # What a stage that consults its input's header at construction may
+    # pull: the *declared* cost of the header row of the pipeline below it -
+    # the look-ahead constants of the stages below on the streamed sources
+    # (skip(n): n rows, unpackdict: its sample), one scan of a build side.
+    # Declared, not measured: a view that newly needs a data row to produce
+    # its header is exactly what this clause must catch.
     hdr_budget = [0] * rec.nsrc
     for pos in range(1, len(stack)):
         if RECIPES[stack[pos][0]].hdr_ctor:
-            t0 = [dec_table(t) for t in case['tables']]
-            w0, v0 = build(e, stack[:pos], None, tempdir=sb.path, tables=t0,
-                           table_factory=table_factory)
-            try:
-                before = [s.pulls('data') for s in w0.s]
-                it0 = iter(v0[0])
-                try:
-                    next(it0)
-                except StopIteration:
-                    pass
-                for i, s in enumerate(w0.s):
-                    hdr_budget[i] += s.pulls('data') - before[i]
-                    # lower stages may themselves have paid at construction
-                    hdr_budget[i] += before[i]
-            finally:
-                it0 = None
-                w0.close()
-                del v0
+            below = sum(RECIPES[n].stream[1] for n, _ in stack[:pos]
+                        if RECIPES[n].stream)
+            for i in range(rec.nsrc):
+                if i in rec.build:
+                    hdr_budget[i] += len(tables[i])
+                else:
+                    hdr_budget[i] += below
     w, views = build(e, stack, None, tempdir=sb.path, tables=tables,
                      table_factory=table_factory)
     try:
@@ -387,14 +380,16 @@ def _one_bytes(e, case, total, log):
     store.files['f'] = data
     src = store.source('f')
     if name == 'fromcsv':
-        view = e.fromcsv(src) if case['variant'] != 1 else \
-            e.fromcsv(src, encoding='utf-8')
+        view = [e.fromcsv(src), e.fromcsv(src, encoding='utf-8'),
+                e.fromcsv(src, header=['p', 'q'], encoding='latin-1')][
+                    case['variant']]
     elif name == 'fromtsv':
         view = e.fromtsv(src)
     elif name == 'frompickle':
         view = e.frompickle(src)
     elif name == 'fromtext':
-        view = e.fromtext(src)
+        view = [e.fromtext(src), e.fromtext(src, strip=False),
+                e.fromtext(src, strip=' ', header=['ln'])][case['variant']]
     else:
         view = e.fromjson(src, lines=True)
     if store.total('bytes_read') != 0 or store.total('open') != 0:
@@ -579,7 +574,7 @@ def shrink_candidates(case):
                     order.append(j)
                 c['order'] = order
             yield c
-        if cons['kind'] != 'next':
+        if cons['kind'] not in ('next', 'islice'):
             c = copy.deepcopy(case)
             c['consumers'][i]['kind'] = 'islice'
             yield c
